@@ -35,7 +35,7 @@ func lookupArgs(univ []*triple.Triple) (ss []*node.Node, ps []*predicate.Predica
 		id := string(t.Predicate().ID())
 		if !seenP[id] {
 			seenP[id] = true
-			ps = append(ps, gen.MustImm(id), gen.MustTemp(id, gen.T1), gen.MustTemp(id, gen.T2), gen.MustTemp(id, gen.T2Z), gen.MustTemp(id, gen.T3), gen.MustTemp(id, gen.T0))
+			ps = append(ps, gen.MustImm(id), gen.MustTemp(id, gen.T1), gen.MustTemp(id, gen.T2), gen.MustTemp(id, gen.T2Z), gen.MustTemp(id, gen.T3), gen.MustTemp(id, gen.T0), gen.MustTemp(id, gen.TFarFuture), gen.MustTemp(id, gen.TFarPast))
 		}
 	}
 	ss = append(ss, gen.AbsentNode)
